@@ -89,7 +89,11 @@ func (s *StoreSys) Apply(op int) *hs.Mismatch {
 }
 
 func (s *StoreSys) Check() *hs.Mismatch {
-	if m := hs.Battery(s.Sto, s.Ref, s.Universe, hs.BatteryOpt{Light: s.Light, Count: &s.Calls}); m != nil {
+	u := s.Universe
+	if len(s.Env.ReadExtra) > 0 {
+		u = append(append([]hs.Blob{}, u...), s.Env.ReadExtra...)
+	}
+	if m := hs.Battery(s.Sto, s.Ref, u, hs.BatteryOpt{Light: s.Light, Count: &s.Calls}); m != nil {
 		return m
 	}
 	if s.Spec.Extra != nil {
